@@ -23,6 +23,33 @@ def errname(e: BaseException) -> str:
     return type(e).__name__
 
 
+class Slow(BaseException):
+    """raised by `deadline` when a real-code call exceeds its budget (never swallowed by `except Exception`)"""
+
+
+class deadline:
+    """with deadline(seconds): …  — SIGALRM based watchdog for calls into the real code"""
+
+    def __init__(self, seconds):
+        self.seconds = seconds
+
+    def __enter__(self):
+        import signal
+
+        def fire(*_a):
+            raise Slow()
+
+        self.old = signal.signal(signal.SIGALRM, fire)
+        signal.alarm(self.seconds)
+
+    def __exit__(self, *exc):
+        import signal
+
+        signal.alarm(0)
+        signal.signal(signal.SIGALRM, self.old)
+        return False
+
+
 def hx(b: bytes) -> str:
     return b.hex() if b else "-"
 
@@ -78,7 +105,15 @@ class Suite:
                 self.unmodelled += 1
             elif i != m:
                 if len(self.mismatches) < 25:
-                    self.mismatches.append({"input": ln, "impl": i, "model": m})
+                    rec = {"input": ln, "impl": i, "model": m}
+                    if " | " in i or " | " in m:
+                        a, b = i.split(" | "), m.split(" | ")
+                        toks = ln.split(" ")
+                        for k, (x, y) in enumerate(zip(a, b)):
+                            if x != y:
+                                rec["first_diff"] = {"index": k, "query": toks[len(toks) - max(len(a), len(b)) + k] if len(toks) >= max(len(a), len(b)) else None, "impl": x, "model": y}
+                                break
+                    self.mismatches.append(rec)
         if len(self.samples) < 4:
             k = len(self.lines) // 2
             self.samples.append({"line": self.lines[k][:200], "impl": self.impl[k][:200], "model": outs[k][:200]})
